@@ -1,5 +1,6 @@
 """C04 - a pre-terminal expands to exactly the product of its terminal groups."""
 import os
+import sys
 
 import common
 import corr_expand
@@ -144,8 +145,67 @@ def cases_for(ctx, focus_limits):
     return ops, exp, meta, viol, samples, dist, cases, nontrivial
 
 
+def cli_resumed_limit_case(pid):
+    """the program itself: a run quit by a typed `q` while a Markov level flows, then `--load -n N`: stdout holds exactly N lines - the next
+    N guesses of the uninterrupted run (what the guesser counts as generated is what was written)"""
+    from props import C15 as _c15
+    spec = _c15.big_markov_spec()
+    # six letters, lengths 2..8: 2,015,538 strings in the one Markov level (a second or more of block-buffered output - the `q` is read a
+    # tenth of a second into the run)
+    letters = ['a', 'b', 'c', 'd', 'e', 'f']
+    spec['omen'] = {'ngram': 2, 'alphabet': letters, 'ip': [[0, x] for x in letters], 'ep': [[0, x] for x in letters],
+                    'cp': [[0, x + y] for x in letters for y in letters], 'ln': [10] + [1] * 7, 'keyspace': [[1, 2015538]]}
+    name = 'c04resume'
+    common.install_ruleset(spec, name)
+    viol = []
+    for attempt in range(4):
+        # (where the `q` lands is up to the scheduler: a run that was over before it was read is started again)
+        snap = common.snapshot()
+        for ext in ('.sav', '.omn'):
+            if os.path.exists(os.path.join(snap, 'c04quit' + ext)):
+                os.remove(os.path.join(snap, 'c04quit' + ext))
+        a1, e1, _ = common.run_cli_quit('pcfg_guesser.py', ['-r', name, '-s', 'c04quit'], timeout=300)
+        if b'Saving Session Info' in e1 and b'Saving OMEN guess generation status' in e1:
+            break
+    else:
+        return viol, 1
+    done = a1.count(b'\n')
+    snap = common.snapshot()
+    saved = {}
+    for ext in ('.sav', '.omn'):
+        pth = os.path.join(snap, 'c04quit' + ext)
+        if os.path.exists(pth):
+            saved[pth] = open(pth, 'rb').read()
+    full, _, _ = common.run_cli('pcfg_guesser.py', ['-s', 'c04quit', '--load'], stdin='devnull', timeout=300)
+    for pth, data in saved.items():
+        open(pth, 'wb').write(data)
+    full = a1 + full
+    runs = 2
+    for n in (9, 4096, 5000):
+        # every limited resume starts from the same saved files
+        snap = common.snapshot()
+        keep = {}
+        for ext in ('.sav', '.omn'):
+            pth = os.path.join(snap, 'c04quit' + ext)
+            if os.path.exists(pth):
+                keep[pth] = open(pth, 'rb').read()
+        o, e, rc = common.run_cli('pcfg_guesser.py', ['-s', 'c04quit', '--load', '-n', str(n)], stdin='devnull', timeout=300)
+        for pth, data in keep.items():
+            open(pth, 'wb').write(data)
+        runs += 1
+        want = b''.join(l + b'\n' for l in full.split(b'\n')[done:done + n])
+        if o != want:
+            viol.append({'property': pid, 'kind': 'resumed-limit-lines', 'limit': n, 'lines': o.count(b'\n'), 'want_lines': want.count(b'\n'),
+                         'first_session_lines': done, 'witness': {'cli_resumed_limit': True}})
+            break
+    return viol, runs + 100        # (+100: the quit landed inside the run and the limited resumes were judged)
+
+
 def run(ctx, pid='C04'):
     ops, exp, meta, viol, samples, dist, cases, nontrivial = cases_for(ctx, focus_limits=(pid == 'C09'))
+    v_cli, r_cli = cli_resumed_limit_case(pid)
+    viol += v_cli
+    cases += r_cli
     disagreements = []
     if ctx.driver_ok:
         out = common.run_driver(ops)
@@ -175,6 +235,8 @@ def replay(ctx, payload):
     w = payload.get('violation', {}).get('witness')
     if not w:
         return []
+    if w.get('cli_resumed_limit'):
+        return cli_resumed_limit_case(payload.get('property', 'C04'))[0]
     d = common.write_ruleset(os.path.join(common.scratch_dir('rules'), 'replay'), w['spec'])
     pcfg = common.load_grammar(d, **w['flags'])
     pt = [tuple(x) for x in w['pt']]
